@@ -53,3 +53,11 @@ Proof.
   - repeat constructor; vm_compute; reflexivity.
   - vm_compute. reflexivity.
 Qed.
+
+From RcProxy Require Model.ClientCodecFast Proofs.ClientCodecFastProofs.
+(* the cdecode correspondence run of this check evaluates `decode_fast` (Model/ClientCodecFast.v,
+   linear-time readers); it is the decoder model `decode` on every input *)
+Theorem C08_evaluated_decoder_is_the_model : forall limit b,
+  RcProxy.Model.ClientCodecFast.decode_fast limit b = RcProxy.Model.ClientCodec.decode limit b.
+Proof. exact RcProxy.Proofs.ClientCodecFastProofs.decode_fast_eq. Qed.
+Print Assumptions C08_evaluated_decoder_is_the_model.
